@@ -58,6 +58,10 @@ def _mk_buffer_classes():
     class VByteArray(LogMixin, BufferByteArray):
         pass
 
+    for c in (VNumpy, VByteArray):          # importable: buffers are pickled together with the objects that live in them
+        c.__qualname__ = c.__name__
+        c.__module__ = __name__
+        globals()[c.__name__] = c
     return VNumpy, VByteArray
 
 
@@ -150,6 +154,8 @@ class World:
         tx = h["tx"]
         if tx["k"] == "arr" and tx["it"]["k"] == "sc":
             r.append("nplike")
+        if h.get("hybrid") is not None:
+            r.append("hybrid")
         return r
 
     def parent_valid(self, key):
@@ -181,6 +187,8 @@ class World:
             return self.ns.cls(h["tx"])._from_buffer(self.bufs[key[0]], key[1])
         if route == "nplike":
             return self.fetch(key, "ctor" if h.get("ctor") is not None else "view")
+        if route == "hybrid":
+            return h["hybrid"]
         rootkey, path = h["parent"]
         x = self.fetch(rootkey, "ctor" if self.handles[rootkey].get("ctor") is not None else "view")
         return self.walk(x, path)
@@ -208,6 +216,8 @@ class World:
                             raise TypeError("to_nplike dtype")
                         v = {"sh": [int(d) for d in a.shape], "it": [list(a[idx].tobytes()) for idx in np.ndindex(*a.shape)]}
                         size, strides = -1, [int(q) for q in a.strides]
+                    elif route == "hybrid":
+                        v = X.read_value(self.ns, tx, x)
                     else:
                         v = X.read_value(self.ns, tx, x)
                         size, strides = X.meta_of(tx, x)
@@ -247,11 +257,11 @@ class World:
             return ("null",)
         if o == "alias":
             k = rng.choice(alias)
-            route = rng.choice([r for r in self.routes(k) if r != "nplike"])
+            route = rng.choice([r for r in self.routes(k) if r not in ("nplike", "hybrid")])
             return ("alias", k[1], tkeys.index(X.key(self.handles[k]["tx"])), self.fetch(k, route))
         if o == "foreign":
             k = rng.choice(foreign)
-            return ("foreign", tkeys.index(X.key(self.handles[k]["tx"])), (k[0] + 1, k[1]), self.fetch(k, rng.choice([r for r in self.routes(k) if r != "nplike"])))
+            return ("foreign", tkeys.index(X.key(self.handles[k]["tx"])), (k[0] + 1, k[1]), self.fetch(k, rng.choice([r for r in self.routes(k) if r not in ("nplike", "hybrid")])))
         return ("new", rng.randrange(len(targets)))
 
     def gen(self, allow=("null", "alias", "new", "foreign"), **kw):
@@ -281,7 +291,7 @@ class World:
             return {"null": False, "at": inp["at"], "tid": inp["tid"]}
         tt = tx["to"] if k == "ref" else tx["of"][inp["tid"]]
         if x is None:
-            raise C.MachineryError("library returned None for a reference the operation should have bound")   # never reached: TLC decides first
+            raise RuntimeError("library returned None for a reference the operation should have bound")   # history ends here; TLC decides on the recorded step
         tkey = (b, int(x._offset))
         if r == "foreign":
             src = (inp["src"][0] - 1, inp["src"][1])
@@ -431,7 +441,7 @@ class World:
         if ep is None:
             return False
         path, acc, last, etx, cur, b = ep
-        route = rng.choice([r for r in self.routes(key) if r != "nplike"])
+        route = rng.choice([r for r in self.routes(key) if r not in ("nplike", "hybrid")])
         frm = None
         if etx["k"] in ("struct", "arr") and rng.random() < 0.35:
             # the value is an object of the same type and skeleton living in some buffer (possibly at the same offset elsewhere)
@@ -528,7 +538,7 @@ class World:
                 exc = type(ex).__name__
 
         def parent_of(key, acc):
-            return self.walk(self.fetch(key, rng.choice([r for r in self.routes(key) if r != "nplike"])), acc)
+            return self.walk(self.fetch(key, rng.choice([r for r in self.routes(key) if r not in ("nplike", "hybrid")])), acc)
 
         def assign(key, acc, last, py):
             par = parent_of(key, acc)
@@ -664,7 +674,7 @@ class World:
         rng = self.rng
         tx = self.handles[key]["tx"]
         cls = self.ns.cls(tx)
-        src = self.fetch(key, rng.choice([r for r in self.routes(key) if r != "nplike"]))
+        src = self.fetch(key, rng.choice([r for r in self.routes(key) if r not in ("nplike", "hybrid")]))
         exc, h = "", None
         try:
             if self.bufs[db].context is not self.bufs[key[0]].context and rng.random() < 0.0:
@@ -687,7 +697,103 @@ class World:
         return nk if ok else None
 
     def history(self):
-        return dict(nbuf=len(self.bufs), steps=self.steps)
+        n = len(self.bufs)
+        for e in self.steps:
+            e["cap"] = e["cap"] + [0] * (n - len(e["cap"]))
+        return dict(nbuf=n, steps=self.steps)
+
+    # ------------------------------------------------------------------ hybrid classes and pickling (C20)
+    def new_hybrid(self, tx, b):
+        """a HybridClass whose data struct has type tx (a struct); the hybrid's _XoStruct becomes THE class of tx in this namespace"""
+        xo = self.xo
+        k = X.key(tx)
+        if k in self.ns.cache:
+            return None
+        fields = {self.ns.fname(i): self.ns.cls(f) for i, f in enumerate(tx["f"])}
+        name = f"{self.ns.prefix}H{self.ns.fresh()}"
+        H = type(xo.HybridClass)(name, (xo.HybridClass,), {"_xofields": fields})
+        X.importable(H)
+        X.importable(H._XoStruct)
+        self.ns.cache[k] = H._XoStruct
+        inp, py = self.gen(("null", "new")).value(tx, b)
+        exc, h = "", None
+        try:
+            h = H(**py, _buffer=self.bufs[b])
+        except Exception as ex:         # noqa
+            exc = type(ex).__name__ + ":" + str(ex)[:80]
+        self.prog.append(f"new hybrid {X.key(tx)[:60]} b={b} -> {None if h is None else h._offset} {exc}")
+        if h is None:
+            self.record("rejected", reads=False, exc=exc, what="new", form="hybrid")
+            return None
+        key = (b, int(h._offset))
+        self.handles[key] = dict(tx=tx, ctor=h._xobject, parent=None, hybrid=h)
+        ok = self.safe_register(lambda: self.shadow.__setitem__(key, self.to_shadow(tx, inp, h._xobject, b, key, [])))
+        self.record("new", b=b + 1, a=key[1], t=tx, val=inp, size=-1, form="hybrid")
+        return key if ok else None
+
+    def pickle(self, keys):
+        """pickle a group of objects together, unpickle, and adopt the twins (and their buffers) into the world"""
+        import pickle
+        objs = []
+        for k in keys:
+            h = self.handles[k]
+            objs.append(h["hybrid"] if h.get("hybrid") is not None else
+                        self.fetch(k, "ctor" if h.get("ctor") is not None else "view"))
+        exc, twins = "", None
+        try:
+            twins = pickle.loads(pickle.dumps(tuple(objs)))
+        except Exception as ex:         # noqa
+            exc = type(ex).__name__ + ":" + str(ex)[:80]
+        self.prog.append(f"pickle {keys} {exc}")
+        if twins is None:
+            self.record("pickle", group=[], exc=exc, reads=False)
+            return None
+        newbuf = {}
+        group, newkeys = [], []
+        for k, t in zip(keys, twins):
+            xb = t._buffer
+            if id(xb) not in newbuf:
+                if any(xb is ob for ob in self.bufs):
+                    newbuf[id(xb)] = [i for i, ob in enumerate(self.bufs) if ob is xb][0]     # NOT independent: TLC will say so
+                else:
+                    if getattr(xb, "_vlog", None) is None:
+                        xb._vlog = []
+                    xb._vlog.clear()
+                    self.bufs.append(xb)
+                    self.snap.append(b"")
+                    newbuf[id(xb)] = len(self.bufs) - 1
+            nb = newbuf[id(xb)]
+            nk = (nb, int(t._offset))
+            group.append([k[0] + 1, k[1], nb + 1, nk[1]])
+            newkeys.append(nk)
+        # adopt twins: same type; shadow relocated under the assumption (checked) that offsets are kept
+        ok = True
+        for k, nk, t in zip(keys, newkeys, twins):
+            if nk[1] != k[1]:
+                ok = False
+        if ok:
+            closure = set()
+
+            def reach(kk):
+                if kk in closure or kk not in self.shadow:
+                    return
+                closure.add(kk)
+                for at in _ref_ats(self.handles[kk]["tx"], self.shadow[kk]):
+                    reach((kk[0], at))
+            for k in keys:
+                reach(k)
+            for k, nk, t in zip(keys, newkeys, twins):
+                for ok_, sh in list(self.shadow.items()):
+                    if ok_ in closure and ok_[0] == k[0] and (nk[0], ok_[1]) not in self.shadow:
+                        self.shadow[(nk[0], ok_[1])] = copy.deepcopy(sh)
+                        oh = self.handles[ok_]
+                        par = oh.get("parent")
+                        self.handles[(nk[0], ok_[1])] = dict(tx=oh["tx"], ctor=None, parent=None if par is None else ((nk[0], par[0][1]), par[1]))
+                hy = t if hasattr(t, "_xobject") else None
+                self.handles[nk]["ctor"] = t._xobject if hy is not None else t
+                self.handles[nk]["hybrid"] = hy
+        self.record("pickle", group=group, exc="")
+        return newkeys if ok else None
 
 
 def _form(py):
@@ -758,3 +864,14 @@ def _size_of(tx, v):
     if X.is_static(tx["it"]):
         return slot(hdr + n * _size_of(tx["it"], None))
     return slot(hdr + 8 * n + sum(_size_of(tx["it"], w) for w in v["it"]))
+
+
+def _ref_ats(tx, v):
+    k = tx["k"]
+    if k in ("sc", "str"):
+        return []
+    if k == "struct":
+        return [a for f, w in zip(tx["f"], v) for a in _ref_ats(f, w)]
+    if k == "arr":
+        return [a for w in v["it"] for a in _ref_ats(tx["it"], w)]
+    return [] if v["null"] else [v["at"]]
